@@ -1,4 +1,16 @@
-"""C08 — see DESIGN.md section 7 (C08).  Bounded layer over the shared compiler harness rtc/compcheck.py:
+"""C08 — compilers produce well-formed results.
+
+P (kernels, real source):
+  * CompilerResult(...) -- the dataclass-generated constructor followed by the real __post_init__ -- for every combination of
+    problem / map_back_action_instance / plan_back_conversion being None or not: construction either raises UPUsageError or yields a
+    result with  problem is not None  =>  plan_back_conversion is not None  (the class invariant every consumer of a result relies on;
+    it failed on the pinned tree because the method was named _post_init and never ran), and it raises exactly for the four
+    inconsistent combinations;
+  * get_fresh_name: the returned name is not a name of the problem it was asked for (while-loop exit condition, any has_name);
+    get_fresh_parameter_name: the returned name is not among the action's parameter names (loop invariant over the parameters).
+Everything else of each _compile is decided by the bounded layer below.
+
+See DESIGN.md section 7 (C08).  Bounded layer over the shared compiler harness rtc/compcheck.py:
 C06 every valid plan of the compiled problem maps back to a valid plan of the original (reference semantics);
 C07 every valid original plan (<= k) has a compiled counterpart (<= k, +1 where a goal action is added);
 C08 compile succeeds inside the supported kind, the result is well-formed (unique names, declared references,
@@ -7,7 +19,6 @@ C09 the compiled problem's kind is contained in the declared resulting kind (als
 """
 from rtc import compcheck
 
-UNITS = []
 USES_THEORY = False
 
 
@@ -15,5 +26,121 @@ def bounded(tier, seed):
     return compcheck.run(tier, seed, ["C08"])["C08"]
 
 
-LEVEL = "exploration"
+# ======================================================================================================= proved kernels
+import z3
+from pyvc.values import Ref, Seq, Opt, Str, SBool, SRef, SUnion, SSeq, Rec, CList, Loc, ExcVal, fresh_name, zbool, zint, Unsupported
+from pyvc.values import Bool as PBool
+from pyvc.verify import Unit
+from pyvc.engine import LoopSpec
+from pyvc import builtins as B
+import unified_planning as _up
+import unified_planning.engines.results as _res
+import unified_planning.engines.compilers.utils as _cu
+from unified_planning.exceptions import UPUsageError as _Usage
+
+Problem08 = Ref("Problem08")
+Problem08.observers["has_name"] = ((Str,), PBool)
+Callable08 = Ref("Callable08")
+Param08 = Ref("Parameter08", fields={"name": Str})
+Action08 = Ref("Action08", fields={"parameters": Seq(Param08)})
+
+
+class CompilerResultInvariant(Unit):
+    prop = "C08"
+    name = "CompilerResult.__init__ / __post_init__"
+    doc = "a constructed result with a problem always has a plan back-conversion; inconsistent combinations raise UPUsageError"
+    allowed_raises = (_Usage,)
+
+    def target(self):
+        return _res.CompilerResult
+
+    def setup(self, eng, st):
+        prob = Opt(Problem08).fresh("problem")
+        mb = Opt(Callable08).fresh("map_back_action_instance")
+        pb = Opt(Callable08).fresh("plan_back_conversion")
+        return [prob, mb, "engine"], {"plan_back_conversion": pb}, dict(prob=prob, mb=mb, pb=pb)
+
+    def post(self, eng, ctx, st, out):
+        pn, mn, bn = ctx["prob"].is_none().z, ctx["mb"].is_none().z, ctx["pb"].is_none().z
+        bad = z3.Or(z3.And(pn, z3.Not(mn)), z3.And(pn, z3.Not(bn)), z3.And(z3.Not(pn), mn, bn), z3.And(z3.Not(mn), z3.Not(bn)))
+        if out[0] == "raise":
+            st.oblige("UPUsageError only for an inconsistent combination", bad)
+            return
+        st.oblige("an inconsistent combination is rejected", z3.Not(bad))
+        r = eng.deref(st, out[1])
+        if not isinstance(r, Rec):
+            st.oblige("a CompilerResult is constructed", z3.BoolVal(False))
+            return
+        pbc = r.fields["plan_back_conversion"]
+        has_pbc = z3.BoolVal(True) if not (pbc is None or isinstance(pbc, SUnion)) else (z3.BoolVal(False) if pbc is None else z3.Not(pbc.is_none().z))
+        st.oblige("problem is not None  =>  plan_back_conversion is not None", z3.Implies(z3.Not(pn), has_pbc))
+        st.oblige("problem is None  =>  no conversion is offered", z3.Implies(pn, z3.Not(has_pbc)))
+
+
+class FreshName(Unit):
+    prop = "C08"
+    name = "get_fresh_name"
+    doc = "the returned name is not a name of the problem"
+
+    def target(self):
+        return _cu.get_fresh_name
+
+    def configure(self, eng):
+        QNF = "unified_planning.engines.compilers.utils.get_fresh_name"
+        eng.loops[(QNF, 0)] = LoopSpec(lambda L: [("count never decreases below zero", zint(L.count) >= 0)], modifies=["new_name", "count"],
+                                       types={"new_name": Str})
+
+    def setup(self, eng, st):
+        pr = Problem08.fresh("problem")
+        names = eng.fresh_of(st, Seq(Str), "parameters_names")
+        return [pr, Str.fresh("original_name"), names, Opt(Str).fresh("trailing_info")], {}, dict(pr=pr)
+
+    def post(self, eng, ctx, st, out):
+        if out[0] != "return":
+            return
+        has = B._uf("Problem08.has_name()", Problem08.z3sort(), Str.z3sort(), z3.BoolSort())
+        from pyvc.values import to_z3
+        st.oblige("the returned name is fresh for the problem", z3.Not(has(ctx["pr"].z, to_z3(out[1], Str))))
+
+
+class FreshParameterName(Unit):
+    prop = "C08"
+    name = "get_fresh_parameter_name"
+    doc = "the returned name is not the name of a parameter of the action"
+
+    def target(self):
+        return _cu.get_fresh_parameter_name
+
+    def configure(self, eng):
+        QNP = "unified_planning.engines.compilers.utils.get_fresh_parameter_name"
+
+        def inv0(L):
+            i = zint(L._i)
+            nl = L.seq("name_list", Str)
+            j = z3.Int(fresh_name("j"))
+            pn = B._uf("Parameter08.name", Param08.z3sort(), Str.z3sort())
+            return [("name_list holds the names of the scanned parameters",
+                     z3.And(nl.n == i, z3.ForAll([j], z3.Implies(z3.And(0 <= j, j < i), z3.Select(nl.arr, j) == pn(z3.Select(L._seq.arr, j))))))]
+        eng.loops[(QNP, 0)] = LoopSpec(inv0, modifies=["p", "name_list"], types={"name_list": Seq(Str)})
+        eng.loops[(QNP, 1)] = LoopSpec(lambda L: [("count >= 0", zint(L.count) >= 0)], modifies=["new_name", "count"], types={"new_name": Str})
+
+    def setup(self, eng, st):
+        a = Action08.fresh("action")
+        return [a, Str.fresh("name")], {}, dict(a=a)
+
+    def post(self, eng, ctx, st, out):
+        if out[0] != "return":
+            return
+        from pyvc.values import to_z3
+        ps = B.field_uf(eng, st, ctx["a"], "parameters")
+        pn = B._uf("Parameter08.name", Param08.z3sort(), Str.z3sort())
+        j = z3.Int(fresh_name("j"))
+        st.oblige("the returned name differs from every parameter name",
+                  z3.ForAll([j], z3.Implies(z3.And(0 <= j, j < ps.n), pn(z3.Select(ps.arr, j)) != to_z3(out[1], Str))))
+
+
+UNITS = [CompilerResultInvariant(), FreshName(), FreshParameterName()]
+LEVEL = "other"
 EXPLANATION = __doc__
+TRUSTED = ["the dataclass-generated __init__ stores its arguments field by field and then calls __post_init__ (pyvc models exactly that)",
+           "Problem.has_name is a pure observer", "string formatting of candidate names is abstract (any string)"]
